@@ -716,11 +716,14 @@ class MementoFunctionHashRule(HashRule):
             )
 
     def compute_hash(self) -> Optional[str]:
-        return (
-            self.memento_fn.explicit_version
-            if self.memento_fn.explicit_version is not None
-            else self.memento_fn.code_hash
-        )
+        if self.memento_fn.explicit_version is not None:
+            return self.memento_fn.explicit_version
+        # The code hash covers default parameter values. A default may be a mutable object
+        # that was updated after the function was defined: describe it as it is now.
+        refresh_code_hash = getattr(self.memento_fn, "refresh_code_hash", None)
+        if refresh_code_hash is not None:
+            refresh_code_hash()
+        return self.memento_fn.code_hash
 
     def did_change(self) -> bool:
         # Changes to the definition of a MementoFunctionType are more robust and detected using a
